@@ -23,8 +23,8 @@ VARIABLES l, tid
 tvars == <<l, tid>>
 
 CfgOf(b) == [hosts |-> b.hosts, pol |-> [kind |-> b.polkind, n |-> b.poln, allow |-> ToSet(b.allow)],
-             outs |-> AllOuts, k |-> b.k, idem |-> b.idem, cancel |-> "any"]
-BlankCfg == [hosts |-> <<>>, pol |-> [kind |-> "none", n |-> 0, allow |-> {}], outs |-> {}, k |-> 0, idem |-> FALSE, cancel |-> "none"]
+             outs |-> AllOuts, k |-> b.k, idem |-> b.idem, cancel |-> "any", wire |-> b.wire]
+BlankCfg == [hosts |-> <<>>, pol |-> [kind |-> "none", n |-> 0, allow |-> {}], outs |-> {}, k |-> 0, idem |-> FALSE, cancel |-> "none", wire |-> FALSE]
 Proj(r) == Ev(r.ev, r.e, r.h, r.n, r.x, r.y)
 
 \* an end-to-end observer cannot see which *Iter executeQuery returned (n = -1 in the log)
